@@ -218,6 +218,7 @@ pub fn mk_run(track: u32, o: &Opt, n: usize, salt: u32) -> LRun {
         tfdt_version: o.tfdt_v,
         base_time: o.base_time + salt as u64 * 1000,
         samples: (0..n).map(|i| LSample { size: 1 + ((i as u32 + salt) % 3), delta: 30 + i as u32 * 3 + salt, cts: if o.cts == Some(1) { -4 + i as i32 } else { 6 + i as i32 }, sync: i == 0 }).collect(),
+        flags_mode: (salt % 3) as u8,
     }
 }
 
